@@ -267,3 +267,24 @@ Fixpoint att_run (l : list att) : nat * bool :=
   | AtEnc n :: _ => (n, true)
   | a :: r => let '(k, e) := att_run r in ((att_yields a + k)%nat, e)
   end.
+
+(* ------------------------------------------------------------------ PDF: _open_pdf_reader + read_pdf's decision, with the
+   process-wide state "the pure-python AES is installed in pypdf's fallback provider".  Oracles (pypdf):
+   ctor_needs_aes = PdfReader(file) raises DependencyError("... AES algorithm ...") while AES is not installed
+   (revision 5/6 documents verify the empty password with AES in the constructor; AESV2 documents do not);
+   on_fallback = patch_pypdf_fallback_aes() returns True (pypdf runs on its pure-python provider). *)
+Record pdf_env := { ctor_needs_aes : bool; on_fallback : bool; pe_view : pdf_view }.
+Inductive pdf_step :=
+| PdfDependency                 (* DependencyError propagates (-> ExtractionFailedError) *)
+| PdfRejected (installed : bool)  (* ExtractionFileEncryptedError *)
+| PdfPages (installed : bool).    (* goes on to read the pages, AES installed or not *)
+(* proactive = true: today's code (installs the fallback for every encrypted document that opened) *)
+Definition pdf_open (proactive : bool) (e : pdf_env) (installed0 : bool) : option bool :=
+  if ctor_needs_aes e && negb installed0
+  then (if on_fallback e then Some true else None)
+  else Some (installed0 || (proactive && p_is_encrypted (pe_view e) && on_fallback e)).
+Definition pdf_decide (proactive : bool) (e : pdf_env) (installed0 : bool) : pdf_step :=
+  match pdf_open proactive e installed0 with
+  | None => PdfDependency
+  | Some inst => if pdf_detect (pe_view e) then PdfRejected inst else PdfPages inst
+  end.
